@@ -238,8 +238,8 @@ PROPS["C13"] = {
     "trusted": CODEC_TRUST,
 }
 PROPS["C02"] = {
-    "lean_modules": ["AvroModel.Props.C02"],
-    "required_theorems": ["record_valid", "independent_reader_recovers", "reference_decoder_inverts", "null_branch_iff", "omits_cases", "null_clause_full_false", "null_clause_partial", "container_frames", "spec_reader_reads_frames", "container_valid", "spec_reader_reads_header", "file_valid"],
+    "lean_modules": ["AvroModel.Props.C02", "AvroModel.Props.C02b"],
+    "required_theorems": ["direct_container_valid", "spec_reader_reads_direct", "direct_blocks_output", "record_valid", "independent_reader_recovers", "reference_decoder_inverts", "null_branch_iff", "omits_cases", "null_clause_full_false", "null_clause_partial", "container_frames", "spec_reader_reads_frames", "container_valid", "spec_reader_reads_header", "file_valid"],
     "harness": [("WR2", "C02")],
     "level_text": "Proof: every record the encoder buffers is the specification's encoding of the datum its value denotes under the schema "
                   "(record_valid), the null branch is written exactly when Omit holds and Omit is characterised in value terms (null_branch_iff, "
@@ -599,7 +599,7 @@ PROPS["C06"]["harness"] = list(PROPS["C06"]["harness"]) + [("RD", "C03"), ("BIG"
 # ---- additions to the generators made while testing with seeded changes (appended to the `rule` texts of the evidence) ----
 _EXTRA_RULES = {
     "C01": " Also: twin fields whose Avro names differ only in case; blocks with more records than bytes (zero-width records, 1500 identical tiny records); slices of boundary lengths (63..65, 127, 128, 4095..4097, 8192); pointer chains ending in collections; the zero instant in a non-UTC zone; the destination handed to ReadFile is, for half the cases, a pointer to a struct pre-filled with an earlier record; records are collected and examined only after ReadFile has returned (banks closed afterwards); large-block files (BIG). Rounds 8-9: ONE reused variable is passed to every Encode call; single-f64 records; records examined after ReadFile returns.",
-    "C02": " Also the recorded writes of the real Encoder / FileWriter (ENC9 stream, judged by the specification-side header and block reader) incl. the scenario two-destinations; boundary slice lengths; twin case-variant fields.",
+    "C02": " Also the recorded writes of the real Encoder / FileWriter (ENC9 stream, judged by the specification-side header and block reader) incl. the scenario two-destinations; boundary slice lengths; twin case-variant fields. Round 10: stream fwd (fault-free direct WriteHeader / WriteBlock histories incl. empty blocks: the specification-side block reader reads the recorded bytes as exactly the blocks written - C02b.direct_container_valid).",
     "C03": " Also: null as field / item / map-value type, general unions with a null branch in any position, narrow integer targets for general unions, unions of 65/70/130 distinct named fixed types (branches 0, 1, 63, 64, 65, last), time-typed fields in a third of the cases; every bank is returned to the pool after the value has been dumped (later cases decode into recycled banks); large-block files (BIG). Rounds 8-9: zero-width arrays systematically, three *[40]byte targets from one bank, null-valued wide maps on a recycled bank.",
     "C05": " Also: the schema-named field inside an embedded struct that is not at offset 0; well-formed multi-block arrays with growing / shrinking block sizes (plain and size-prefixed); schemas referring to an earlier record by name; non-canonical boolean bytes (a bool holding a byte other than 0/1 is reported).",
     "C06": " Also: the C18 malformed-timestamp stream, the RD stream of valid encodings and the BIG stream run under C06; block counts that overflow the slice length after earlier blocks (every tier); len > cap check on every decoded slice (also on the error path); mal-soak: one small record decoded 200000 times with banks closed at once, steady-state allocation must stay below 1 MiB + n/4 bytes. Rounds 8-9: damaged MAP counts as a role of their own (mcount), selectors equal to the branch count, negative / overflowing fixed and block sizes on the Skip path, values around 1<<21, repeated-decode soak; panics are never attributed to D14.",
